@@ -276,7 +276,7 @@ func crun(args []string) error {
 	// (a second schema / channel pair announced after the first message, an attachment and a metadata record between
 	// messages), unchunked, under several feature sets.  The expected bytes come from the same port of generate-inputs.ts;
 	// the write tool must turn the description into exactly those bytes, record order included.
-	if *which == "all" && *only == "" && *wtool != "" {
+	if *which == "all" && (*only == "" || strings.HasPrefix(*only, "Synthetic")) && *wtool != "" {
 		load := func(rel string) (*refmcap.CVector, error) {
 			jb, err := os.ReadFile(filepath.Join(*repo, "tests/conformance/data", rel))
 			if err != nil {
@@ -364,6 +364,9 @@ func crun(args []string) error {
 				name := "Synthetic" + n
 				if len(fset) > 0 {
 					name += "-" + strings.Join(fset, "-")
+				}
+				if *only != "" && *only != name {
+					continue
 				}
 				jf := filepath.Join(*tmp, name+".json")
 				if err := os.WriteFile(jf, []byte(`{"records":[`+strings.Join(rj, ",")+`],"meta":{"variant":{"features":`+string(fb)+`}}}`), 0o644); err != nil {
